@@ -1,0 +1,23 @@
+//go:build verif
+
+package tink
+
+// Pure specification functions used by the contracts in zz_contracts_verif.go.
+//
+// Layout of tink's AES-GCM-HKDF streaming ciphertext (streamingaead/subtle, firstSegmentOffset 0), written from
+// tink's noncebased.Writer: a 40-byte header (1 + 32-byte salt + 7-byte nonce prefix) shares the first
+// ciphertext-segment slot with segment 0; every segment carries a 16-byte tag.
+
+const specHdr = 40
+const specTag = 16
+
+func specFirstPss(css int64) int64 { return css - specTag - specHdr }
+func specPss(css int64) int64      { return css - specTag }
+
+// specSegStart is the plaintext offset at which segment j begins.
+func specSegStart(j int64, css int64) int64 {
+	if j == 0 {
+		return 0
+	}
+	return specFirstPss(css) + (j-1)*specPss(css)
+}
